@@ -671,6 +671,76 @@ fn families(l: &Lang, thorough: bool) -> Acc {
             }
         }
     }
+    // string contents over an alphabet of escape-level tokens: every sequence of up to k tokens inside a quoted
+    // string, in every place a string can stand (what follows an escaped backslash is ordinary text; what follows a
+    // lone backslash is an escape; surrogate escapes need their partner)
+    {
+        let toks: [&str; 14] = ["\\\\", "u", "D83D", "DE00", "0041", "\\uD83D", "\\uDE00", "\\u0041", "a", "\u{e9}", "\\n", "\\", "12", "\\/"];
+        let k = if thorough { 4 } else { 3 };
+        let mut seqs: Vec<String> = vec![String::new()];
+        let mut level: Vec<String> = vec![String::new()];
+        for _ in 0..k {
+            let mut next = vec![];
+            for p in &level {
+                for t in toks {
+                    next.push(format!("{}{}", p, t));
+                }
+            }
+            seqs.extend(next.iter().cloned());
+            level = next;
+        }
+        let part = seqs
+            .par_iter()
+            .map(|x| {
+                let mut acc = Acc::new();
+                for c in [
+                    format!("$['{}']", x),
+                    format!("$[\"{}\"]", x),
+                    format!("$.b['{}']", x),
+                    format!("$[?@.a=='{}']", x),
+                    format!("$[?@[\"{}\"]==1]", x),
+                    format!("$[?search(@.a,'{}')]", x),
+                ] {
+                    l.examine(&mut acc, &c, "family: escape-token sequences inside strings", true);
+                }
+                acc
+            })
+            .reduce(Acc::new, Acc::merge);
+        acc = acc.merge(part);
+    }
+    // function arguments: every slice of a small cube and every small index, in each parameter position and at
+    // several places of the argument query (a ValueType parameter takes a singular query: names and indices only)
+    {
+        let b: Vec<String> = ["", "-2", "-1", "0", "1", "2", "3"].iter().map(|s| s.to_string()).collect();
+        let st: Vec<String> = ["", ":", ":-1", ":1", ":2"].iter().map(|s| s.to_string()).collect();
+        let mut sels: Vec<String> = vec![];
+        for a in &b {
+            for e in &b {
+                for t in &st {
+                    sels.push(format!("{}:{}{}", a, e, t));
+                }
+            }
+        }
+        for i in ["-2", "-1", "0", "1", "2", "0,1", "0,0", "*", "'a'", "?@"] {
+            sels.push(i.to_string());
+        }
+        for sel in &sels {
+            for arg in [format!("@[{}]", sel), format!("@.a[{}]", sel), format!("$[{}]", sel), format!("@[{}].b", sel), format!("@[0][{}]", sel)] {
+                for call in [
+                    format!("length({})==1", arg),
+                    format!("match({},'a')", arg),
+                    format!("search(@.b,{})", arg),
+                    format!("count({})==1", arg),
+                    format!("value({})==1", arg),
+                    format!("length(value({}))==1", arg),
+                    format!("{}==1", arg),
+                    format!("{}", arg),
+                ] {
+                    l.examine(&mut acc, &format!("$[?{}]", call), "family: slices and indices in function arguments", true);
+                }
+            }
+        }
+    }
     for op in ["==", "!=", "<", "<=", ">", ">=", "=", "===", "<>", "!", "=<", "=>", "~=", "=~", "&&", "||", "&", "|", "and", "or", "not"] {
         for c in [format!("$[?@.a{}1]", op), format!("$[?@.a {} 1]", op), format!("$[?@.a{}@.b]", op), format!("$[?@.a {} @.b]", op), format!("$[?{}@.a]", op), format!("$[?{} @.a]", op)] {
             l.examine(&mut acc, &c, "family: operators", true);
